@@ -599,7 +599,6 @@ func isConstLike(v ssa.Value) bool {
 	return false
 }
 
-
 // sortMakesOrderDeterministic: sorting distinct map keys by their natural order is deterministic; a custom
 // comparator only if it is a strict total order on the elements — accepted when both operands of its comparison
 // are computed from the two elements without reading another map (a tie between equal sort keys, e.g. areas
